@@ -44,8 +44,10 @@ POOL = [(2, 3), (3, 2), (3, 4), (6,), (12,), (2, 2, 3), (2, 3, 2), (2, 3, 4), (4
 
 
 def drivers(tier):
-    both = ("-DC20_PART_A", "-DC20_PART_B")
-    return {"c20": [("c20.cpp", "ndebug", both), ("c20.cpp", "asan", both)],
+    # c20.cpp instantiates 9 argument forms (x 4 ranks for the fixed-size ones) of resize per array type: two binaries
+    # (8 + 9 kinds x 2 layouts); the sanitizer builds keep the run-time sized forms and leave the casts out (compile time)
+    return {"c20a": [("c20.cpp", "ndebug", ("-DC20_PART_A",)), ("c20.cpp", "asan", ("-DC20_PART_A", "-DC20_NO_CAST", "-DC20_FEW_FORMS"))],
+            "c20b": [("c20.cpp", "ndebug", ("-DC20_PART_B",)), ("c20.cpp", "asan", ("-DC20_PART_B", "-DC20_NO_CAST", "-DC20_FEW_FORMS"))],
             "c20v": [("c20_views.cpp", "ndebug", ()), ("c20_views.cpp", "asan", ("-DVD_LIGHT",))],
             "c20l": [("c20_legacy.cpp", "ndebug", ()), ("c20_legacy.cpp", "asan", ())],
             # the cast TU instantiates 18 kind tags x 4 raw shapes x 5 element types (55 s): sanitizer build on two shapes only
@@ -72,14 +74,46 @@ def reason(kind, sizes):
     return "ok"
 
 
-def alphabet(kind):
+# argument forms of a resize request (drivers/c20_forms.hpp).  Tuple forms (t, c) are accepted by the signature of
+# ndarray_t::resize but its body does not compile for them (run-time at() on a tuple) — they are not generated.
+FORMS = ["v", "i", "a", "j", "s", "h", "u", "p", "q"]
+KINDS_A = ["d/d", "d/f6", "d/f12", "d/b12", "f2/d", "f2/f6", "f2/b12", "f3/d"]
+# sequences in which the rank and the trailing extents change from step to step (stale strides / stale extents show)
+RANK_CHANGING = [[(2, 3), (2, 2, 2), (4, 3)], [(2, 2, 2), (4, 3), (3, 2, 2)], [(3, 4), (6,), (2, 3)], [(4, 2), (2, 4), (2, 3, 2)],
+                 [(2, 3), (3, 2), (1, 6)], [(6,), (2, 3), (3, 2)], [(12,), (3, 4), (2, 3, 2)], [(2, 2), (2, 3), (3, 3)],
+                 [(1, 3, 4), (3, 4), (4, 3)], [(2, 3, 2), (3, 2, 2), (2, 2, 3)]]
+CAST_TAGS = ["dynamic", "hybrid", "fixed", "ndarray_ls_db", "ndarray_ls_hb", "ndarray_ds_db", "ndarray_hs_hb", "ndarray_fs_fb",
+             "ndarray_fs_db", "ndarray_hs_db", "ndarray_cs_fb", "ndarray_ds_hb"]
+
+
+def key_of(kind): return "c20a" if kind in KINDS_A else "c20b"
+
+
+def fits_form(kind, form, s):
+    """forms the driver can build for this request (fixed-size forms up to rank 4; tuple-shaped arrays index a fixed-size
+    request with compile-time indices, so it must have exactly their rank; static vectors hold 4 extents)"""
+    if form in "ajpq":
+        if len(s) > 4: return False
+        if kind.startswith("l") and len(s) != len(kind.split("/")[0][1:].split("x")): return False
+    if form in "sh" and len(s) > 4: return False
+    return True
+
+
+def rs(form, s): return "r" + ("" if form == "v" else form) + ",".join(map(str, s))
+
+
+def alphabet(kind, rot=0):
     if kind.startswith("c"): return ["w4=9", "w1=5", "c", "a"]
     acc = [s for s in POOL if reason(kind, s) == "ok"][:2]
     ref = []
     for why in ("rank", "count", "clip"):
         r = [s for s in POOL if reason(kind, s) == why]
         if r: ref.append(r[0])
-    sym = ["r" + ",".join(map(str, s)) for s in acc + ref]
+    sym = []
+    for n, s in enumerate(acc + ref):
+        f = FORMS[(n + rot) % len(FORMS)]
+        if not fits_form(kind, f, s): f = "v"
+        sym.append(rs(f, s))
     a = acc[-1] if acc else (1,)
     return sym + ["w4=9", "c", "a" + ",".join(map(str, a))]
 
@@ -94,7 +128,8 @@ def rand_op(rng, kind):
     cs = kind.startswith("c")
     if r < 0.45 and not cs:
         s = rng.choice(POOL) if rng.random() < 0.5 else rand_shape(rng)
-        return "r" + ",".join(map(str, s))
+        f = rng.choice(FORMS)
+        return rs(f if fits_form(kind, f, s) else "v", s)
     if r < 0.75: return "w%d=%d" % (rng.randint(0, 40), rng.randint(-9, 99))
     if r < 0.85: return "c"
     if cs: return "a"
@@ -104,34 +139,60 @@ def rand_op(rng, kind):
 
 def gen_cases(rng, tier):
     out = []
-    def add(stream, line, key="c20"): out.append((stream, line, key))
+    def add(stream, line, key): out.append((stream, line, key))
     maxlen = 3 if tier == "quick" else 4
     nrand = 120 if tier == "quick" else 1500
-    for kind in KINDS:
-        al = alphabet(kind)
-        for lay in "rc":
+    for kn, kind in enumerate(KINDS):
+        key = key_of(kind)
+        for ln, lay in enumerate("rc"):
+            al = alphabet(kind, rot=2 * kn + 5 * ln)          # the forms rotate over kinds and layouts
             tag = "S:%s/%s" % (kind, lay)
-            add("exhaustive", "hist %s S:" % tag)
+            add("exhaustive", "hist %s S:" % tag, key)
             for n in range(1, maxlen + 1):
                 if n == maxlen and tier == "quick" and kind not in ("d/d", "f2/d", "b3/b12", "d/f6", "l3x4/d"):
                     # quick: the longest exhaustive layer only for the five structurally different kinds
                     continue
                 for h in itertools.product(al, repeat=n):
-                    add("exhaustive", "hist %s S:%s" % (tag, ";".join(h)))
+                    add("exhaustive", "hist %s S:%s" % (tag, ";".join(h)), key)
             for _ in range(nrand):
                 n = rng.randint(4, 5 if tier == "quick" else 6)
-                add("random", "hist %s S:%s" % (tag, ";".join(rand_op(rng, kind) for _ in range(n))))
+                add("random", "hist %s S:%s" % (tag, ";".join(rand_op(rng, kind) for _ in range(n))), key)
+            if kind.startswith("c"):
+                for t in CAST_TAGS: add("histcast", "histcast %s S:w4=9;c;w1=5 S:%s" % (tag, t), key)
+                continue
+            # every argument form x rank / trailing-extent changing sequences (each accepted resize is followed by a
+            # write of a distinct value at every index and a read-back of every index and of the raw buffer)
+            seqs = RANK_CHANGING if tier != "quick" else rng.sample(RANK_CHANGING, 4)
+            for f in FORMS:
+                for seq in seqs:
+                    if all(fits_form(kind, f, s) for s in seq):
+                        add("forms", "hist %s S:%s" % (tag, ";".join(rs(f, s) for s in seq)), key)
+                # mixed forms in one history
+                seq = rng.choice(RANK_CHANGING)
+                fs = [f] + [rng.choice(FORMS) for _ in seq[1:]]
+                add("forms", "hist %s S:%s" % (tag, ";".join(rs(g if fits_form(kind, g, s) else "v", s) for g, s in zip(fs, seq))), key)
+            # cast to another kind after such a history
+            for t in CAST_TAGS:
+                for _ in range(2 if tier == "quick" else 6):
+                    seq = rng.choice(RANK_CHANGING); ops = []
+                    for s in seq:
+                        g = rng.choice(FORMS); ops.append(rs(g if fits_form(kind, g, s) else "v", s))
+                        if rng.random() < 0.4: ops.append("w%d=%d" % (rng.randint(0, 20), rng.randint(-9, 99)))
+                    add("histcast", "histcast %s S:%s S:%s" % (tag, ";".join(ops), t), key)
     gen_views(rng, tier, add)
     gen_legacy(rng, tier, add)
     gen_casts(rng, tier, add)
     return out
 
 
-LEGACY = {"fixed2x3": ["w4=9", "w1=5", "c", "a"], "fixed6": ["w4=9", "w1=5", "c", "a"],
-          "hybrid12x2": ["r2,3", "r3,4", "r4,4", "r2,7", "w4=9", "c", "a3,2", "g"],
-          "hybrid6x1": ["r4", "r6", "r7", "w4=9", "c", "a3", "g"],
-          "hybrid12x3": ["r2,3,2", "r1,3,4", "r2,3,4", "w4=9", "c", "a3,2,1", "g"],
-          "dynamic": ["r2,3", "r3,4", "r2,3,4", "r6", "w4=9", "c", "a3,2", "g"]}
+LEGACY = {"fixed2x3": ["w4=9", "w1=5", "c", "a", "gx"], "fixed6": ["w4=9", "w1=5", "c", "a", "gx"],
+          "hybrid12x2": ["ra2,3", "rp3,4", "rq4,4", "r2,7", "w4=9", "c", "a3,2", "g", "nf2,2"],
+          "hybrid6x1": ["ra4", "rp6", "rq7", "w4=9", "c", "a3", "gb", "nd5"],
+          "hybrid12x3": ["ra2,3,2", "rp1,3,4", "rq2,3,4", "w4=9", "c", "a3,2,1", "gy", "nz2,2,2"],
+          "dynamic": ["ra2,3", "rs3,4", "rj2,3,4", "ru6", "w4=9", "c", "a3,2", "ge", "nb2,2,2"]}
+LFORMS = {"dynamic": ["v", "i", "a", "j", "s", "h", "u", "p", "q"], "hybrid": ["a", "p", "q"]}
+SOURCES = ["d", "e", "f", "b", "z", "y", "x"]
+XSHAPES = [(6,), (2, 3), (3, 4), (2, 3, 2)]
 TAGS = ["fixed", "hybrid", "dynamic"] + ["ndarray_%s_%s" % (a, b) for a in ("cs", "fs", "hs", "ds", "ls") for b in ("fb", "hb", "db")]
 DTYPES = ["same", "double", "float", "long", "int8"]
 
@@ -143,20 +204,55 @@ def gen_legacy(rng, tier, add):
         add("legacy", "lhist S:%s S:" % cls, "c20l")
         for n in range(1, maxlen + 1):
             for h in itertools.product(al, repeat=n):
-                if cls == "dynamic" and h[0] == "g": continue      # templated operator= on the 0-dim default object: not expressible
+                if cls == "dynamic" and h[0][0] == "g": continue      # templated operator= on the 0-dim default object: not expressible
                 add("legacy", "lhist S:%s S:%s" % (cls, ";".join(h)), "c20l")
         dim = {"hybrid12x2": 2, "hybrid6x1": 1, "hybrid12x3": 3}.get(cls)
-        for _ in range(nrand):
+        mx = {"hybrid12x2": 12, "hybrid6x1": 6, "hybrid12x3": 12}.get(cls)
+        forms = LFORMS["dynamic"] if cls == "dynamic" else LFORMS["hybrid"] if dim else []
+        def shape():
+            d = dim or rng.randint(1, 3)
+            return tuple(rng.randint(1, 4) for _ in range(d))
+        def fitting():                                           # a shape the class can hold (constructors do not validate)
+            while True:
+                s = shape()
+                if mx is None or prod(s) <= mx: return s
+        for _ in range(nrand if forms else nrand // 5):
             ops = []
             for _ in range(rng.randint(4, 6)):
-                o = rng.choice(al)
-                if o[0] in "ra" and len(o) > 1 and rng.random() < 0.6:
-                    d = dim or rng.randint(1, 3)
-                    o = o[0] + ",".join(str(rng.randint(1, 4)) for _ in range(d))
-                if o[0] == "w": o = "w%d=%d" % (rng.randint(0, 30), rng.randint(-9, 99))
-                ops.append(o)
-            if cls == "dynamic" and ops[0] == "g": ops[0] = "r2,2"
+                r = rng.random()
+                if forms and r < 0.4: ops.append(rs(rng.choice(forms), shape()))
+                elif r < 0.6: ops.append("w%d=%d" % (rng.randint(0, 30), rng.randint(-9, 99)))
+                elif r < 0.7: ops.append("c")
+                elif r < 0.8: ops.append("a" + ",".join(map(str, shape())) if forms else "a")
+                elif r < 0.9 or not forms: ops.append("g" + (rng.choice(SOURCES) if forms else "x"))
+                else:
+                    k = rng.choice(SOURCES); s = rng.choice([x for x in XSHAPES if (dim is None or len(x) == dim) and (mx is None or prod(x) <= mx)] or [None]) if k == "x" else fitting()
+                    if s is None: k, s = "d", fitting()
+                    ops.append("n" + k + ",".join(map(str, s)))
+            if cls == "dynamic" and ops[0][0] == "g": ops[0] = "r2,2"
             add("legacy", "lhist S:%s S:%s" % (cls, ";".join(ops)), "c20l")
+        if not forms: 
+            for t in CAST_TAGS: add("histcast", "lhistcast S:%s S:w4=9;c;w1=5 S:%s" % (cls, t), "c20l")
+            continue
+        # every argument form of every resize overload x rank / trailing-extent changing sequences
+        seqs = {None: RANK_CHANGING, 1: [[(4,), (6,), (3,)]], 2: [[(2, 3), (3, 2), (1, 6)], [(3, 4), (4, 3), (2, 6)], [(4, 2), (2, 2), (2, 5)]],
+                3: [[(2, 3, 2), (3, 2, 2), (2, 2, 3)], [(1, 3, 4), (4, 3, 1), (2, 1, 6)]]}[dim]
+        for f in forms:
+            for seq in seqs:
+                if f in "ajpqsh" and any(len(x) > 4 for x in seq): continue
+                add("forms", "lhist S:%s S:%s" % (cls, ";".join(rs(f, x) for x in seq)), "c20l")
+                add("forms", "lhist S:%s S:%s" % (cls, ";".join(rs(rng.choice(forms), x) for x in seq)), "c20l")
+        # every converting constructor / templated assignment source, after a resize that left other extents behind
+        for k in SOURCES:
+            for _ in range(3 if tier == "quick" else 10):
+                s0, s1 = fitting(), (rng.choice([x for x in XSHAPES if (dim is None or len(x) == dim) and (mx is None or prod(x) <= mx)] or [None]) if k == "x" else fitting())
+                if s1 is None: continue
+                add("forms", "lhist S:%s S:%s;n%s%s;w3=7;g%s" % (cls, rs(rng.choice(forms), s0), k, ",".join(map(str, s1)), k), "c20l")
+                add("forms", "lhist S:%s S:%s;g%s;%s" % (cls, rs(rng.choice(forms), s1), k, rs(rng.choice(forms), s0)), "c20l")
+        for t in CAST_TAGS:
+            for _ in range(3 if tier == "quick" else 8):
+                seq = rng.choice(seqs)
+                add("histcast", "lhistcast S:%s S:%s S:%s" % (cls, ";".join(rs(rng.choice(forms), x) for x in seq), t), "c20l")
 
 
 def gen_casts(rng, tier, add):
@@ -222,9 +318,9 @@ def gen_views(rng, tier, add):
 
 def nontrivial(line):
     t = line.split(" ")
-    if t[0] != "hist": return True
+    if t[0] not in ("hist", "histcast", "lhist", "lhistcast"): return True
     ops = t[2][2:].split(";") if len(t) > 2 else []
-    return len(ops) >= 2 and any(o[0] in "ra" and o.count(",") >= 1 for o in ops if o)
+    return len(ops) >= 2 and any(o[0] in "ran" and o.count(",") >= 1 for o in ops if o)
 
 
 def distribution(streams):
@@ -232,7 +328,7 @@ def distribution(streams):
     for _, line, _ in streams:
         t = line.split(" ")
         ops[t[0]] += 1
-        if t[0] == "hist":
+        if t[0] in ("hist", "histcast", "lhist", "lhistcast"):
             kinds[t[1][2:]] += 1
             lens[str(len([o for o in t[2][2:].split(";") if o]) if len(t) > 2 else 0)] += 1
     return {"ops": dict(ops), "kinds": dict(kinds), "history_length": dict(lens)}
@@ -266,7 +362,7 @@ def classify(line, impl, spec, model):
     if t[0] == "hist" and "|" in impl and "|" in spec:
         kind = t[1][2:]
         ri, rs = [r.strip().split("|") for r in impl.split(";")], [r.strip().split("|") for r in spec.split(";")]
-        if len(ri) != len(rs) or any(len(r) != 7 for r in ri + rs): return None
+        if len(ri) != len(rs) or any(len(r) != 8 for r in ri + rs): return None
         if kind.endswith("/c"):
             # (1) strides() of a column-major array: everything else agrees and the accessor reports the row-major strides
             patched = " ; ".join("|".join(r[:2] + [s[2]] + r[3:]) for r, s in zip(ri, rs))
